@@ -79,7 +79,7 @@ func universeOf(in *In) *universe {
 			claims[e.Name] = true
 		case "claimGone", "rc":
 			claims[e.Name] = true
-		case "pod", "podGone", "rp":
+		case "pod", "podGone", "rp", "rpf":
 			pods[e.Name] = true
 		}
 	}
